@@ -514,6 +514,12 @@ def sweep(fx, R):
         if not cls or f.get('ctor') or f.get('body') is None:
             continue
         pids = {p['id'] for p in f.get('params', [])}
+        for _ in range(3):          # locals initialised from the parameters count as the argument
+            for y in walk(f['body']):
+                if isinstance(y, dict) and y.get('k') == 'Decl':
+                    for v in y['vars']:
+                        if v.get('init') is not None and any(isinstance(z, dict) and z.get('k') == 'Ref' and z.get('id') in pids for z in walk(v['init'])):
+                            pids.add(v['id'])
         for x in walk(f['body']):
             if not (isinstance(x, dict) and x.get('k') == 'If'):
                 continue
@@ -530,6 +536,14 @@ def sweep(fx, R):
             elif c.get('k') == 'Call' and (c.get('fn') or '').split('<')[0].split('::')[-1] in ('near', 'isApprox', 'almostEqual', 'isNear') and len(c.get('args', [])) >= 2:
                 fuzzy = (c.get('fn') or '').split('<')[0].split('::')[-1]
                 sides = (c['args'][0], c['args'][1])
+                op = '!=' if neg else '=='
+            elif c.get('k') == 'Bin' and c.get('op') in ('<', '<=') and strip_casts(c['l']).get('k') in ('Call', 'MCall') and \
+                    ((strip_casts(c['l']).get('fn') or strip_casts(c['l']).get('m') or '').split('<')[0].split('::')[-1] in ('abs', 'fabs', 'norm', 'cwiseAbs')) and \
+                    any(isinstance(y, dict) and y.get('k') == 'Bin' and y.get('op') == '-' for y in walk(c['l'])):
+                # |argument - remembered| < tolerance
+                d_ = next(y for y in walk(c['l']) if isinstance(y, dict) and y.get('k') == 'Bin' and y.get('op') == '-')
+                fuzzy = 'within `%s` of' % pp(c['r'])[:40]
+                sides = (d_['l'], d_['r'])
                 op = '!=' if neg else '=='
             else:
                 if neg:
@@ -553,9 +567,11 @@ def sweep(fx, R):
                 continue
             if fuzzy:
                 others_ = sorted(names_ - {key['name']})
-                R.violated('H5', '%s:fuzzy-key:%s' % (f['q'].split('(')[0], key['name']), '`%s` is re-used whenever the argument is %s() to the remembered `%s` (`%s`): that is a tolerance comparison (relative precision '
-                           '1e-5 in float, 1e-12 in double by default), not equality, so a DIFFERENT argument that is merely close - close relative to its own magnitude - is answered with the value computed for the '
-                           'previous one; the result depends on the call made before' % (', '.join(others_), fuzzy, key['name'], pp(x['c'])[:90]), fx.rel(x.get('loc') or f['loc']), 'E-PURE')
+                R.violated('H5', '%s:fuzzy-key:%s' % (f['q'].split('(')[0], key['name']), '`%s` is re-used whenever the argument is %s the remembered `%s` (`%s`): that is a tolerance comparison%s, not equality, so a '
+                           'DIFFERENT argument that is merely close is answered with the value computed for the previous one; the result depends on the call made before (two such arguments map to the same output: '
+                           'the map is not one-to-one, and its inverse cannot return both)' % (', '.join(others_), fuzzy if fuzzy.startswith('within') else fuzzy + '() to', key['name'], pp(x['c'])[:90],
+                                                                                               '' if fuzzy.startswith('within') else ' (relative precision 1e-5 in float, 1e-12 in double by default)'),
+                           fx.rel(x.get('loc') or f['loc']), 'E-PURE')
                 continue
             for (bm, rhs) in st_:
                 if bm.get('cls') != cls or bm['name'] == key['name']:
